@@ -186,7 +186,9 @@ pub enum Oracle {
 /// "for every history ... afterwards" claim.
 pub fn relevant(msg: &str) -> bool {
     let body = msg.trim_start();
-    // tags may be preceded by a step prefix such as "step 3 (A:push(1)): " or "after the last step: "
+    let mut tagged = false;
+    // a description may carry several class tags (a failure that falsifies several properties):
+    // it is relevant iff one of them is switched on.  Tags may be preceded by a step prefix such as "step 3 (A:push(1)): " or "after the last step: "
     for (tag, o) in [
         ("[leak]", Oracle::Leak),
         ("[live]", Oracle::Liveness),
@@ -198,10 +200,13 @@ pub fn relevant(msg: &str) -> bool {
         ("[content]", Oracle::Content),
     ] {
         if body.contains(tag) {
-            return oracle(o);
+            tagged = true;
+            if oracle(o) {
+                return true;
+            }
         }
     }
-    true
+    !tagged
 }
 
 static ORACLES: std::sync::atomic::AtomicU32 = std::sync::atomic::AtomicU32::new(u32::MAX);
@@ -531,7 +536,7 @@ pub fn catch<T>(f: impl FnOnce() -> T) -> Result<T, String> {
 // handler writes out before exiting with status 70.
 
 pub const ABORT_EXIT_CODE: i32 = 70;
-const CRUMB_CAP: usize = 1 << 16;
+const CRUMB_CAP: usize = 1 << 20;
 static mut CRUMB: [u8; CRUMB_CAP] = [0; CRUMB_CAP];
 static CRUMB_LEN: std::sync::atomic::AtomicUsize = std::sync::atomic::AtomicUsize::new(0);
 static mut ABORT_PATH: [u8; 512] = [0; 512];
